@@ -140,6 +140,12 @@ def step(t, op, backing):
         except Exception as e:
             return [exc_obs(e)]
         return guard(lambda: hnode_obs(t.traverse_from(parent, tuple(op[2]))))
+    if kind == "tf_reads":
+        try:
+            parent = t.traverse(tuple(op[1]))
+        except Exception:
+            return None
+        return count_reads(t, lambda: t.traverse_from(parent, tuple(op[2])))
     if kind == "root_node":
         return guard(lambda: hnode_obs(t.root_node))
     if kind == "drop":
@@ -158,6 +164,56 @@ def step(t, op, backing):
         except Exception as e:
             return exc_obs(e)
     raise ValueError(op)
+
+
+class CountingProxy:
+    """Stands in for a trie's `db` for the duration of one call and counts the entries READ through it
+    (`db[k]`, `db.get(k)`); membership tests are not reads of an entry."""
+
+    def __init__(self, inner):
+        self._inner = inner
+        self.reads = 0
+
+    def __getitem__(self, k):
+        self.reads += 1
+        return self._inner[k]
+
+    def get(self, k, default=None):
+        self.reads += 1
+        return self._inner.get(k, default)
+
+    def __setitem__(self, k, v):
+        self._inner[k] = v
+
+    def __delitem__(self, k):
+        del self._inner[k]
+
+    def __contains__(self, k):
+        return k in self._inner
+
+    def __iter__(self):
+        return iter(self._inner)
+
+    def __len__(self):
+        return len(self._inner)
+
+    def __getattr__(self, name):
+        return getattr(self._inner, name)
+
+
+def count_reads(t, f):
+    """number of database entries read through t.db while f() runs (its result or exception is ignored)"""
+    proxy = CountingProxy(t.db)
+    old = t.db
+    t.db = proxy
+    try:
+        try:
+            f()
+        except Exception:
+            pass
+    finally:
+        t.db = old
+    return proxy.reads
 
 
 def unfreeze(n):
@@ -215,6 +271,8 @@ def cop(op):
         return f"OTraverse {cnibs(op[1])}"
     if k == "traverse_from":
         return f"OTraverseFrom {cnibs(op[1])} {cnibs(op[2])}"
+    if k == "tf_reads":
+        return f"OTraverseFromReads {cnibs(op[1])} {cnibs(op[2])}"
     if k == "root_node":
         return "ORootNode"
     if k == "drop":
